@@ -518,8 +518,9 @@ LEG = {
 }
 
 
-def legacy_recording(c, name, adapt, N=12, Nb=2, short=False):
+def legacy_recording(c, name, adapt, N=12, Nb=2, short=False, long=False):
     if adapt and not short: N = 20
+    if long: N, Nb = 230, 20                          # beyond the chain lengths at which progress output is thinned (every (N+Nb)//100-th state)
     seed = int(c.real('seed', lo=0, hi=10 ** 6)); np.random.seed(seed)
     log = []
     s = LEG[name](cb=lambda x, i: log.append((np.array(x, dtype=float).copy(), i)))
@@ -585,6 +586,11 @@ def jobs(tier):
         for adapt in (False, True):
             J.append(Job(f'legacy.{name}:{"sample_adapt" if adapt else "sample"}:recording_and_callback', lambda c, n=name, a=adapt: legacy_recording(c, n, a), 'B',
                          [f'{LS}:Sampler.sample', f'{LS}:Sampler.sample_adapt', f'{LS}:Sampler._create_Sample_object'], nnum=2))
+    for name in LEG:
+        for adapt in (False, True):
+            if q and name in ('LinearRTO', 'UGLA', 'ULA', 'MALA') and not adapt: continue
+            J.append(Job(f'legacy.{name}:{"sample_adapt" if adapt else "sample"}:recording_and_callback:long_run', lambda c, n=name, a=adapt: legacy_recording(c, n, a, long=True), 'B',
+                         [f'{LS}:Sampler.sample', f'{LS}:Sampler.sample_adapt', f'{LS}:Sampler._print_progress'], nnum=1))
     for name in ('MH', 'CWMH', 'pCN'):          # adaptive runs shorter than ten states (the adaptation interval is a tenth of the run)
         J.append(Job(f'legacy.{name}:sample_adapt:recording_and_callback:short_run', lambda c, n=name: legacy_recording(c, n, True, 6, 2, True), 'B',
                      [f'{LS}:Sampler.sample_adapt'], nnum=2))
